@@ -2,11 +2,23 @@
 (* C08: the transform returns (no panic, abort, timeout) and repeated runs, in this and in a fresh process, are byte-identical. *)
 EXTENDS JudgeCore, Wellformed
 VARIABLES c, done
-Why(ob, D) == TotalWhy(ob.drv)
+(* declaration graphs emitted by MC_C08T (TypeResolve.tla): besides returning, a reachable cycle must be   *)
+(* reported and an acyclic graph must not; the lookups the real code performed (resolve_ref hooks of the    *)
+(* props resolution) are compared with the model's prediction — a mismatch there is model drift, not alarm *)
+IsGraph(ob) == "graph" \in DOMAIN ob.abs
+RealLookups(ob) ==
+  LET es == SelectSeq(ob.drv.hooks, LAMBDA e : e.ev = "resolve_ref" /\ e.site = "elements") IN [i \in 1..Len(es) |-> es[i].name]
+Why(ob, D) ==
+  LET w == TotalWhy(ob.drv) IN
+  IF w # "" \/ ~IsGraph(ob) \/ ob.drv.term.k # "return" THEN w
+  ELSE IF ob.abs.cyclic /\ ob.drv.ndiag = 0 THEN "self-referential-type-not-reported"
+  ELSE IF ~ob.abs.cyclic /\ ob.drv.ndiag > 0 THEN "acyclic-type-reported-as-error"
+  ELSE ""
+Drift(ob) == IF IsGraph(ob) /\ ob.drv.term.k = "return" /\ RealLookups(ob) # ob.abs.predicted THEN 1 ELSE 0
 ListedDevs == {}
 Init == c \in 1..NObs /\ done = FALSE
 Finish ==
   /\ ~done /\ done' = TRUE /\ c' = c
-  /\ LET ob == Obs[c] IN PrintT(ToJson(Judged(ob, Why, ListedDevs, ob.drv.term.k = "return" /\ ob.drv.jsx_in > 0)))
+  /\ LET ob == Obs[c] IN PrintT(ToJson([drift |-> Drift(ob)] @@ Judged(ob, Why, ListedDevs, ob.drv.term.k = "return" /\ (ob.drv.jsx_in > 0 \/ IsGraph(ob)))))
 Next == Finish
 =============================================================================
